@@ -31,4 +31,19 @@ func init() {
 			"file system / read(2)": "simulated disk (zsim.Disk) with tape-chosen read lengths and EIO",
 		},
 	}
+	props["C10"] = &propCfg{
+		ID: "C10", Harness: "disk",
+		Quick:    tierCfg{Runs: 60000, Procs: 8, WallS: 600},
+		Thorough: tierCfg{Runs: 3000000, Procs: 16, Seeds: 3, WallS: 3000},
+		Rule: "NARROW CLAIM (I/O surface only). one evaluation = one generated scenario on the simulated disk: (a) a program issuing 1-5 of 读取文件/写入文件/读取目录 on a small path set (files, a directory, missing paths, missing parent), each result bound+displayed, displayed directly, or returned by 输出, with or without a 拦截异常 handler; (b) LoadFile(...).Execute of a project with nested-directory imports, with a module missing / replaced by a directory / parent replaced by a file / not UTF-8; (c) a request through ZnPlaygroundHandler / ZnHttpHandler whose body reader fails after k bytes. Fault kinds (random subset per run, a third of the runs fault-free): stat EACCES, open EACCES/EMFILE/ENOENT-after-stat, read EIO, short reads, write ENOSPC/EROFS/torn, readdir EIO, client abort mid-body. Oracle: no Go panic, no nil element, fault-free runs match a path->bytes reference model exactly (display, result, final disk), faulted runs may fail but never show data that was never written, every failure reaches 拦截异常 when there is one, a faulted load never runs on silently. distinct_nontrivial = distinct (kind, enabled faults, handler, operation sequence) tuples.",
+		Assume: []string{
+			"only the I/O-facing built-ins, source loading and the handlers' body reading are covered; the ~90 pure members x argument tuples of C10 are pure functions of their input and are NOT covered",
+			"os shim fidelity: errors are *fs.PathError with the errno a POSIX kernel would give",
+		},
+		Components: map[string]string{
+			"stdlib/file, pkg/exec, pkg/io, pkg/value, pkg/server handlers": "real code (transformed copy)",
+			"file system": "simulated disk with per-operation fault points",
+			"HTTP server and client": "stub: handler invoked directly with a body reader the simulator controls",
+		},
+	}
 }
